@@ -111,7 +111,7 @@ func c12rGenerate(seed uint64, tier string, index int) json.RawMessage {
 	if r.Chance(300) {
 		// several tasks present the same one-time session concurrently
 		p.Tasks = [][]c12rOp{
-			{{Kind: "user", User: 0, Pw: 0}, {Kind: "login-basic", User: 0, Pw: 0, Once: true}},
+			{{Kind: "user", User: 0, Pw: 0}, {Kind: []string{"login-basic", "login"}[r.Intn(2)], User: 0, Pw: 0, Once: true}},
 		}
 		for t := 0; t < r.Range(2, 4); t++ {
 			p.Tasks = append(p.Tasks, []c12rOp{{Kind: "idle", Delta: 1}, {Kind: []string{"authonce", "authcookie"}[r.Intn(2)], Sess: 0, Node: r.Intn(p.Nodes), How: r.Intn(4)},
